@@ -33,7 +33,8 @@ HOSTILE_HOLDERS = ["Jane */ Doe", "Ends with -->", "curly }", "x #} y", "a *) b"
                    "p --%> q", "Jane */", "trail #}"]
 LICS = ["MIT", "GPL-3.0-or-later", "Apache-2.0 OR MIT", "GPL-2.0-or-later WITH Classpath-exception-2.0", "LicenseRef-own-1.0",
         "MIT AND (0BSD OR ISC)"]
-FAITHFUL = {None, "custom", "nocontrib", "commented"}
+CUSTOMS = ("custom", "custom-html", "custom-xml", "custom-txt")
+FAITHFUL = {None, "nocontrib", "commented"} | set(CUSTOMS)
 
 
 def generate(tier, seed):
@@ -100,7 +101,7 @@ def one(res, ctx, root, rng, t, forced_style, idx, sample=False):
     holders = list(dict.fromkeys(holders))
     lics = [rng.choice(LICS)] + ([rng.choice(LICS)] if rng.random() < 0.25 else [])
     lics = list(dict.fromkeys(lics))
-    contribs = [rng.choice(["Ann Contributor", "Bob <bob@example.com>", "Çağrı"])] if rng.random() < 0.3 else []
+    contribs = [rng.choice(["Ann Contributor", "Bob <bob@example.com>", "Çağrı", "D'Arcy & Co <https://example.org/?a=1&b=2>", "Quote \"Q\" Person"])] if rng.random() < 0.3 else []
     prefix = rng.choice(list(notice.PREFIXES)) if rng.random() < 0.6 else None
     yr = rng.random()
     if yr < 0.25:
@@ -140,7 +141,7 @@ def one(res, ctx, root, rng, t, forced_style, idx, sample=False):
     template = None
     r = rng.random()
     if r < 0.12:
-        template = "custom"
+        template = rng.choice(CUSTOMS)
     elif r < 0.18:
         template = "nocontrib"
     elif r < 0.24:
@@ -210,7 +211,7 @@ def one(res, ctx, root, rng, t, forced_style, idx, sample=False):
         return
     prior_contrib = {"Earlier Contributor"} if (which == "own" and not binary and dot != "--force-dot-license"
                                                 and not annot.carrier_of(f).endswith(".license")) else set()
-    if (contribs or prior_contrib) and template in (None, "custom", "commented"):
+    if (contribs or prior_contrib) and template in (None, "commented") + CUSTOMS:
         gc = annot.read_contributors(f)
         if gc is not None and prior_contrib and not prior_contrib <= gc:
             res.violation(f"declared-contributor-dropped:{short}", f"the header declared contributor {sorted(prior_contrib)} before; after a successful annotate the "
@@ -259,14 +260,36 @@ def multi(res, ctx, root, rng, idx):
     holder = rng.choice(PLAIN_HOLDERS)
     lic = rng.choice(LICS)
     recursive = rng.random() < 0.5
-    cwd, gargs, fargs = annot.place(rng, root, [d] if recursive else [f for f, *_ in files])
+    # sometimes one or two files of the batch cannot be annotated at all (not UTF-8): then the run as a whole is not a success
+    doomed = []
+    for name in rng.sample(["legacy.c", "alt.py", "zz.sh"], rng.choice([0, 0, 1, 1, 2])):
+        g = d / name
+        body = b"".join(b"int value_%d = %d;\n" % (i, i) for i in range(12))
+        g.write_bytes((b"/* caf\xe9 cr\xe8me */\n" if name.endswith(".c") else b"# na\xefve caf\xe9\n") + body)
+        doomed.append((g, g.read_bytes()))
+    cwd, gargs, fargs = annot.place(rng, root, [d] if recursive else [f for f, *_ in files] + [g for g, _ in doomed])
+    if doomed and not recursive:
+        rng.shuffle(fargs)
     args = ["-c", holder, "-l", lic, "--year", "2022"] + (["--merge-copyrights"] if rng.random() < 0.2 else [])
     r = run_cli(gargs + ["annotate"] + args + (["-r"] if recursive else []) + fargs, cwd=cwd)
     res.n += 1
-    desc = {"files": [(f.name, p) for f, p, *_ in files], "recursive": recursive}
-    if r.escaped or r.exit_code != 0:
+    desc = {"files": [(f.name, p) for f, p, *_ in files], "recursive": recursive, "cannot-be-annotated": [g.name for g, _ in doomed]}
+    if r.escaped or (r.exit_code != 0 and not doomed):
         res.violation("plain-multi-file-request-refused", f"annotate exit {r.exit_code} {r.exc_type} ({desc})", **r.brief())
         return
+    if doomed:
+        res.cell("multi:with-files-that-cannot-be-annotated")
+        if r.exit_code == 0:
+            res.violation("multi-file:success-although-a-file-got-no-header", f"annotate exit 0 although {[g.name for g, _ in doomed]} cannot be "
+                          f"annotated ({desc})", **r.brief())
+            return
+        if r.exit_code != 1:
+            res.violation("multi-file:exit-status", f"annotate exit {r.exit_code} for a batch in which some files fail ({desc})", **r.brief())
+            return
+        for g, was in doomed:
+            if g.read_bytes() != was or os.path.exists(str(g) + ".license"):
+                res.violation("multi-file:failed-file-changed", f"{g.name} could not be annotated but was changed ({desc})")
+                return
     after, rr = annot.read_back(root)
     for f, prior, pc, pl in files:
         rel = os.path.relpath(f, root)
